@@ -12,7 +12,11 @@ can only learn it through a `Save` atom).
 
 Checked `u32` arithmetic of the Rust code (`self.range.start + …`, `cursor + jump`, `… - base`) is
 `padd32` / an explicit `panic`; `Lemmas/Scan.lean` proves none is reachable.  `self.hits` is a plain
-counter here (one increment per interpreter call; the `u32` cannot overflow before 2^32 calls).
+counter here: it is incremented once per interpreter call, every call is at a position in
+`[range.start before, range.start after)` of the search that makes it and `range.start` never
+decreases, so over the life of a `Matches` object `hits` is at most the number of `u32` positions
+below `range.end ≤ u32::MAX` and the checked `u32` increment cannot overflow (argued here, not
+proved; the counter is compared with the implementation by the correspondence check).
 `slice.len() as u32` is the identity (buffers are below 4 GiB).
 -/
 namespace Pelite.Scan
